@@ -74,7 +74,39 @@ moves every coordinate of `X` by `v`.
                                      (`Separated` for every representation): same verdict.  Rests on `C08_polygonContains_tries_all_aliases` and
                                      on `C08_inPolygon_lon_bounds`: a point of `InPolygon` has its longitude within the vertex longitudes (to the
                                      right of all vertices every crossing term is `0`; to the left the terms are `[a.y ≤ y] − [b.y ≤ y]` and
-                                     telescope around the closed polygon).  Not done: the analogue for `BBox.inside true`.
+                                     telescope around the closed polygon).
+* `C08_bbox_tries_all_aliases`, `C08_bbox_lon_offset_general`
+                                     `BoundingBox::point_inside` (spherical; since upstream 'fix: bounding box tried only one longitude alias' the
+                                     point, the point `+2π` and the point `−2π` are tried): for a canonical query longitude and a box whose
+                                     tolerance-enlarged longitude bounds lie in `(−3π, 3π]` the answer is "some description `L + 2πk` is within the
+                                     bounds"; hence the same verdict for the box offset by `d` and the re-normalised query `L' = L + d + 2πj`.
+  `C08_canonical_unique`             REMARK on "`L` or `L ± 360°`" at kernel level: the kernels only ever see the canonical description (`atan2`), and two
+                                     canonical descriptions of the same longitude coincide (`d = 0` forces `j = 0`): nothing to state beyond
+                                     `C08_longitude_alias_same_point`.
+  `C08_bbox_lon_offset_general_old_false`
+                                     the rule before the repair (`BBox.insideOld`: the point and `otherPoint`) FAILS the statement: box
+                                     `[−2π − 0.3, −2π + 0.1]`, query longitude `−0.005·π` (`π := 3`), offset `d = 2π`.
+* `C08_plume_covers_lon_offset`      `PlumeFeature.covers` (verdict and relative distance) with every centre longitude offset by `d` (across the
+                                     meridian or not), asked at the re-normalised query: unchanged, provided the centre longitudes stay in
+                                     `[−2π, 2π]`, the listed depths ascend, and no description of the query longitude is exactly `π` away from the
+                                     centre used at the query depth (`C08_plume_covers_lon_offset_of_centre`: hypotheses on that centre only).
+* `C08_ridge_lon_offset`             `calculate_ridge_distance_and_spreading` (spherical), every ridge longitude offset by `d`, query longitude
+                                     `L' = L + d + 2πj`: spreading velocity, distance and migration time are unchanged PROVIDED every segment's mid
+                                     longitude and every transform point is within `π` (strictly) of one of the TWO descriptions of the query that
+                                     the code tries, in both frames (`RidgeReach`; `C08_ridge_reach_of_range`: true for feature longitudes in
+                                     `(−π, 2π]` when `L < 0`, in `[−2π, π)` when `L ≥ 0`).  `PeriodLaws`, `AngleAddLaws` for `sin`, `cos`.
+  `C08_ridge_lon_offset_same_sign`   all FOUR outputs when the offset does not re-normalise the query (`L' = L + d`, same sign test): no reach
+                                     hypothesis needed.
+* `C08_ridge_lon_offset_inrange_full_false`
+                                     CANDIDATE FINDING.  "All longitudes within `[−2π, 2π]`" is NOT enough: the code tries `L` and `L − 2π` for
+                                     `L ≥ 0` (`L + 2π` for `L < 0`), so a ridge drawn within `π` of `L + 2π` (resp. `L − 2π`) is measured from the
+                                     wrong side.  Witness (`π := 3`): ridge `(5,0)–(6,0)`, spreading velocities `1, 2`, query longitude `1/2`:
+                                     velocity `1` (foot point: the WEST end, 3/2 away instead of 1/2); everything offset by `−5` (ridge
+                                     `(0,0)–(1,0)`, query `3/2`): velocity `2` (EAST end).  In degrees: ridge `[350°,0]–[360°,0]`, query `5°`.
+* `C08_ridge_lon_offset_full_false`  CANDIDATE FINDING.  The fourth output (subducting velocity) is not invariant even under `RidgeReach`: at the far
+                                     end of a segment the copy `other_check_point` takes `spreading_velocity_point1` where `check_point` takes
+                                     `subducting_velocity_point1` (utilities.cc:1432).  Witness (`π := 3`): ridge `(1,0)–(2,0)`, spreading `1, 2`,
+                                     subducting `5`, query `5/2`: `5`; offset `d = 2` (ridge `(3,0)–(4,0)`, query `−3/2`): `2`.
 
 What is NOT proved
 * No statement about a whole `World.props3` under translation/rotation of a world: the theorems are per kernel (polygon, Bezier, ridge,
@@ -90,6 +122,7 @@ import GwbVerif.Proofs.MotionWitness
 import GwbVerif.Proofs.MotionRidge
 import GwbVerif.Proofs.MotionRot
 import GwbVerif.Proofs.MotionLon
+import GwbVerif.Proofs.MotionLonKernels
 import Mathlib.Analysis.SpecialFunctions.Trigonometric.Basic
 import GwbVerif.Model.World
 namespace Gwb
@@ -336,6 +369,136 @@ theorem C08_bbox_lon_offset (d : F) (b : BBox F) (p : P2 F) :
     @BBox.inside F (fieldScalar T) (b.shift ⟨d, 0⟩) true (P2.shift ⟨d, 0⟩ p) = @BBox.inside F (fieldScalar T) b true p :=
   BBox.inside_lon_offset T d b p
 
+/-! ### 3(d) common longitude offset, general case: bounding box, plume, ridge kernel -/
+
+/-- **C08** REMARK on "a query described with `L` or `L ± 360°`" at kernel level.  The kernels receive the query longitude from `atan2`,
+i.e. always the canonical description in `(−π, π]`; two canonical descriptions of the same longitude coincide, so with `d = 0` the
+offset theorems below only allow `j = 0`, `p' = p`.  The content of that clause of the property is `C08_longitude_alias_same_point`
+(the two descriptions are the same Cartesian point, hence the same canonical longitude). -/
+theorem C08_canonical_unique (hπ : 0 < T.pi) (L L' : F) (j : ℤ) (hlo : -T.pi < L) (hhi : L ≤ T.pi) (hlo' : -T.pi < L') (hhi' : L' ≤ T.pi)
+    (hrel : L' = L + 2 * T.pi * j) : j = 0 ∧ L' = L := by
+  have h1 : (-1 : ℤ) < j := by
+    apply int_lt_of_two_pi_mul_lt hπ
+    push_cast; linarith
+  have h2 : j < (1 : ℤ) := by
+    apply int_lt_of_two_pi_mul_lt hπ
+    push_cast; linarith
+  have : j = 0 := by omega
+  subst this
+  exact ⟨rfl, by simpa using hrel⟩
+
+/-- **C08** the spherical bounding-box test tries every description that can matter: canonical query longitude `L ∈ (−π, π]`,
+tolerance-enlarged longitude bounds (`BBox.loX`, `BBox.hiX`: what `insideImpl` really compares with) in `(−3π, 3π]`: the answer is
+"inside" iff SOME description `L + 2πk` lies within the enlarged bounds (and the latitude within its enlarged bounds) -/
+theorem C08_bbox_tries_all_aliases (hπ : 0 < T.pi) (b : BBox F) (p : P2 F) (hlo : -T.pi < p.x) (hhi : p.x ≤ T.pi)
+    (hL : -(3 * T.pi) < b.loX T) (hH : b.hiX T ≤ 3 * T.pi) :
+    @BBox.inside F (fieldScalar T) b true p = true ↔
+      (∃ k : ℤ, b.loX T ≤ p.x + 2 * T.pi * k ∧ p.x + 2 * T.pi * k ≤ b.hiX T) ∧ b.okY T p.y :=
+  BBox.inside_spherical_iff T hπ b p hlo hhi hL hH
+
+/-- **C08** common longitude offset, general case, `BoundingBox::point_inside` (spherical): the box is offset by `d` (it may cross the
+`±π` meridian), the canonical query longitude `L` becomes any canonical `L' = L + d + 2πj`; the tolerance-enlarged longitude bounds of
+both boxes lie in `(−3π, 3π]` (the boxes of the line features are built from coordinates in `[−2π, 2π]` plus a buffer).  Same verdict.
+No hypothesis `L ≠ 0` (all three descriptions are tried) and no tolerance proviso (the tolerance is relative to the box extent). -/
+theorem C08_bbox_lon_offset_general (hπ : 0 < T.pi) (b : BBox F) (d : F) (p p' : P2 F) (j : ℤ)
+    (hlo : -T.pi < p.x) (hhi : p.x ≤ T.pi) (hlo' : -T.pi < p'.x) (hhi' : p'.x ≤ T.pi)
+    (hrel : p'.x = p.x + d + 2 * T.pi * j) (hy : p'.y = p.y)
+    (hL : -(3 * T.pi) < b.loX T) (hH : b.hiX T ≤ 3 * T.pi)
+    (hL' : -(3 * T.pi) < b.loX T + d) (hH' : b.hiX T + d ≤ 3 * T.pi) :
+    @BBox.inside F (fieldScalar T) (b.shift ⟨d, 0⟩) true p' = @BBox.inside F (fieldScalar T) b true p :=
+  BBox.inside_lon_offset_general T hπ b d p p' j hlo hhi hlo' hhi' hrel hy hL hH hL' hH'
+
+/-- the same statement for the rule before upstream 'fix: bounding box tried only one longitude alias' (`BBox.insideOld`: the point
+and `otherPoint`) — FALSE, see `C08_bbox_lon_offset_general_old_false` -/
+def C08_bbox_lon_offset_general_old_full : Prop :=
+  0 < T.pi → ∀ (b : BBox F) (d : F) (p p' : P2 F) (j : ℤ),
+    -T.pi < p.x → p.x ≤ T.pi → -T.pi < p'.x → p'.x ≤ T.pi → p'.x = p.x + d + 2 * T.pi * j → p'.y = p.y →
+    -(3 * T.pi) < b.loX T → b.hiX T ≤ 3 * T.pi → -(3 * T.pi) < b.loX T + d → b.hiX T + d ≤ 3 * T.pi →
+    @BBox.insideOld F (fieldScalar T) (b.shift ⟨d, 0⟩) true p' = @BBox.insideOld F (fieldScalar T) b true p
+
+/-- **C08** common longitude offset, general case, `Plume` footprint (`PlumeFeature.covers`: verdict and relative distance handed to
+the models).  Every centre longitude is offset by `d` (`f.shift ⟨d, 0⟩`, all other data equal); the query keeps its depth and
+latitude, its canonical longitude `L` becomes the canonical `L' = L + d + 2πj`.  Hypotheses: centre longitudes within `[−2π, 2π]`
+before and after; listed depths ascending (so that the centre used between two cross-sections is a convex combination of the two —
+it follows the offset, therefore the two ends cannot "choose differently"); no tie: no description of the query longitude is exactly
+`π` away from the centre used at the query depth (`plumeSelect`, Proofs/MotionPlume.lean: plume.cc:283-330). -/
+theorem C08_plume_covers_lon_offset (hπ : 0 < T.pi) (f : PlumeFeature F) (d : F) (ctx : Ctx F) (q q' : Query F) (j : ℤ)
+    (hsph : ctx.coord.spherical = true) (hdepth : q'.depth = q.depth)
+    (hlo : -T.pi < q.nat.y) (hhi : q.nat.y ≤ T.pi) (hlo' : -T.pi < q'.nat.y) (hhi' : q'.nat.y ≤ T.pi)
+    (hrel : q'.nat.y = q.nat.y + d + 2 * T.pi * j) (hy : q'.nat.z = q.nat.z)
+    (hasc : Ascending f.depths)
+    (hrange : ∀ c ∈ f.coords, -(2 * T.pi) ≤ c.x ∧ c.x ≤ 2 * T.pi)
+    (hrange' : ∀ c ∈ f.coords, -(2 * T.pi) ≤ c.x + d ∧ c.x + d ≤ 2 * T.pi)
+    (hnt : ∀ up d0 sel, @plumeSelect F (fieldScalar T) f q.depth d0 up = .ok sel →
+      ∀ k : ℤ, |q.nat.y + 2 * T.pi * k - sel.1.x| ≠ T.pi) :
+    @PlumeFeature.covers F (fieldScalar T) (f.shift ⟨d, 0⟩) ctx q' = @PlumeFeature.covers F (fieldScalar T) f ctx q :=
+  PlumeFeature.covers_lon_offset T hπ f d ctx q q' j hsph hdepth hlo hhi hlo' hhi' hrel hy hasc hrange hrange' hnt
+
+/-- **C08** the same with hypotheses on the centre used at the query depth only (`up`: the offset `std::upper_bound` returns): both
+drawings of it at most `3π` from the query longitude handed to the kernel (one step of `2π` then reaches the closest description), no tie.
+No hypothesis on the order of the depths or on the other centres. -/
+theorem C08_plume_covers_lon_offset_of_centre (hπ : 0 < T.pi) (f : PlumeFeature F) (d : F) (ctx : Ctx F) (q q' : Query F) (j : ℤ)
+    (hsph : ctx.coord.spherical = true) (hdepth : q'.depth = q.depth)
+    (hrel : q'.nat.y = q.nat.y + d + 2 * T.pi * j) (hy : q'.nat.z = q.nat.z)
+    (hsel : ∀ up d0 sel, @upperBound F (fieldScalar T) f.depths q.depth (f.depths.length + 1) 0 f.depths.length = .ok up →
+      @plumeSelect F (fieldScalar T) f q.depth d0 up = .ok sel →
+      |q.nat.y - sel.1.x| ≤ 3 * T.pi ∧ |q'.nat.y - (sel.1.x + d)| ≤ 3 * T.pi ∧ ∀ k : ℤ, |q.nat.y + 2 * T.pi * k - sel.1.x| ≠ T.pi) :
+    @PlumeFeature.covers F (fieldScalar T) (f.shift ⟨d, 0⟩) ctx q' = @PlumeFeature.covers F (fieldScalar T) f ctx q :=
+  PlumeFeature.covers_lon_offset_sel T hπ f d ctx q q' j hsph hdepth hrel hy hsel
+
+/-- **C08** common longitude offset, general case, `calculate_ridge_distance_and_spreading` (spherical): every ridge longitude offset by
+`d`, the query's natural coordinates `(r, L, lat)` become `(r, L', lat)` with `L' = L + d + 2πj` (`nat.withLon L'`).  Spreading
+velocity, distance to the ridge and migration time (`RidgeParams.eraseSub` drops the subducting velocity) are unchanged under
+`RidgeReach`: for every segment the mid longitude, and for every transform fault its point `t0`, is strictly within `π` of `L` or of
+the ONE other description the code tries (`otherPoint`: `L + 2π` for `L < 0`, `L − 2π` for `L ≥ 0`), before and after the offset.  The
+strict inequality contains the no-tie condition `|check − m| ≠ |other − m|`.  That `L`, `L'` are canonical is not used; it is what makes
+`RidgeReach` hold for ridges drawn in the ranges of `C08_ridge_reach_of_range`.  `sin`/`cos`: `2π`-periodic with the addition formulas
+(the great-circle distance sees the longitude difference only). -/
+theorem C08_ridge_lon_offset (hπ : 0 < T.pi) (hP : PeriodLaws T) (hA : AngleAddLaws T) (d : F) (nat : P3 F) (L' : F) (j : ℤ)
+    (hrel : L' = nat.y + d + 2 * T.pi * j) (ridges : List (List (P2 F))) (vels : List (List F)) (subVel : List (List F))
+    (migr : List F) (hreach : RidgeReach T ⟨nat.y, nat.z⟩ ⟨L', nat.z⟩ d ridges) :
+    Except.map RidgeParams.eraseSub (@ridgeDistanceAndSpreading F (fieldScalar T) true (ridges.map (List.map (P2.shift ⟨d, 0⟩))) vels
+        (nat.withLon L') subVel migr) =
+      Except.map RidgeParams.eraseSub (@ridgeDistanceAndSpreading F (fieldScalar T) true ridges vels nat subVel migr) :=
+  ridgeDistanceAndSpreading_lon_offset T hπ hP hA d nat L' j hrel ridges vels subVel migr hreach
+
+/-- **C08** `LonReach` (the per-longitude content of `RidgeReach`) from ranges: a canonical query longitude `L < 0` reaches every
+feature longitude in `(−π, 2π]`, `L ≥ 0` every one in `[−2π, π)` — when no description of `L` is exactly `π` away.  Feature longitudes
+in `[−2π, −π]` for `L < 0` (resp. `[π, 2π]` for `L ≥ 0`) may be NOT reached: `C08_ridge_lon_offset_inrange_full_false`. -/
+theorem C08_ridge_reach_of_range (p : P2 F) (m : F) (hlo : -T.pi < p.x) (hhi : p.x ≤ T.pi)
+    (h : (p.x < 0 ∧ -T.pi < m ∧ m ≤ 2 * T.pi) ∨ (0 ≤ p.x ∧ -(2 * T.pi) ≤ m ∧ m < T.pi))
+    (hnt : ∀ k : ℤ, |p.x + 2 * T.pi * k - m| ≠ T.pi) : LonReach T p m :=
+  lonReach_of_range T p m hlo hhi h hnt
+
+/-- **C08** all four outputs of the ridge kernel when the offset does not re-normalise the query longitude (`L' = L + d` with the same
+verdict of the sign test `lon < 0` that selects `otherPoint`): a plain translation in the longitude coordinate -/
+theorem C08_ridge_lon_offset_same_sign (hA : AngleAddLaws T) (d : F) (nat : P3 F) (hsign : nat.y + d < 0 ↔ nat.y < 0)
+    (ridges : List (List (P2 F))) (vels : List (List F)) (subVel : List (List F)) (migr : List F) :
+    @ridgeDistanceAndSpreading F (fieldScalar T) true (ridges.map (List.map (P2.shift ⟨d, 0⟩))) vels (nat.withLon (nat.y + d))
+        subVel migr =
+      @ridgeDistanceAndSpreading F (fieldScalar T) true ridges vels nat subVel migr :=
+  ridgeDistanceAndSpreading_lon_shift T hA d nat hsign ridges vels subVel migr
+
+/-- the statement with the range hypothesis of the property text only ("longitudes stay within `[−360°, 360°]`"), for the three outputs
+of `C08_ridge_lon_offset` — FALSE, see `C08_ridge_lon_offset_inrange_full_false` -/
+def C08_ridge_lon_offset_inrange_full : Prop :=
+  0 < T.pi → PeriodLaws T → AngleAddLaws T →
+  ∀ (d : F) (nat : P3 F) (L' : F) (j : ℤ) (ridges : List (List (P2 F))) (vels subVel : List (List F)) (migr : List F),
+    -T.pi < nat.y → nat.y ≤ T.pi → -T.pi < L' → L' ≤ T.pi → L' = nat.y + d + 2 * T.pi * j →
+    (∀ ridge ∈ ridges, ∀ v ∈ ridge, (-(2 * T.pi) ≤ v.x ∧ v.x ≤ 2 * T.pi) ∧ (-(2 * T.pi) ≤ v.x + d ∧ v.x + d ≤ 2 * T.pi)) →
+    Except.map RidgeParams.eraseSub (@ridgeDistanceAndSpreading F (fieldScalar T) true (ridges.map (List.map (P2.shift ⟨d, 0⟩))) vels
+        (nat.withLon L') subVel migr) =
+      Except.map RidgeParams.eraseSub (@ridgeDistanceAndSpreading F (fieldScalar T) true ridges vels nat subVel migr)
+
+/-- the statement of `C08_ridge_lon_offset` for all FOUR outputs — FALSE, see `C08_ridge_lon_offset_full_false` -/
+def C08_ridge_lon_offset_full : Prop :=
+  0 < T.pi → PeriodLaws T → AngleAddLaws T →
+  ∀ (d : F) (nat : P3 F) (L' : F) (j : ℤ) (ridges : List (List (P2 F))) (vels subVel : List (List F)) (migr : List F),
+    -T.pi < nat.y → nat.y ≤ T.pi → -T.pi < L' → L' ≤ T.pi → L' = nat.y + d + 2 * T.pi * j →
+    RidgeReach T ⟨nat.y, nat.z⟩ ⟨L', nat.z⟩ d ridges →
+    @ridgeDistanceAndSpreading F (fieldScalar T) true (ridges.map (List.map (P2.shift ⟨d, 0⟩))) vels (nat.withLon L') subVel migr =
+      @ridgeDistanceAndSpreading F (fieldScalar T) true ridges vels nat subVel migr
+
 end field
 
 /-! ### negative results (witnesses over `ℚ`, `ε = 2⁻⁵²`) -/
@@ -381,6 +544,73 @@ theorem C08_footprint_at_zero_missed :
     norm_num
   rw [this]
   exact footprint_contains_alias
+
+/-- **C08** (documents the repaired defect) with the single-alias rule the bounding box is NOT invariant: box longitudes
+`[−2π − 0.3, −2π + 0.1]`, latitudes `[−1, 1]`, query `(−0.005·π, 0)` (`π := 3`).  The description `L − 2π` is in the box but the old rule
+tries `L` and `L + 2π`: outside.  After the offset `d = 2π` the box is `[−0.3, 0.1]`, the canonical query longitude is the same: inside. -/
+theorem C08_bbox_lon_offset_general_old_false : ¬ C08_bbox_lon_offset_general_old_full c08Transc := by
+  intro h
+  have e : c08Transc.pi = 3 := rfl
+  have hl : c08Box.loX c08Transc = -63 / 10 - 1 / 2 ^ 52 * (2 / 5) := by
+    show (-63 / 10 : ℚ) - 1 / 2 ^ 52 * |(-59 / 10 : ℚ) - -63 / 10| = _
+    norm_num [abs_of_pos]
+  have hh : c08Box.hiX c08Transc = -59 / 10 + 1 / 2 ^ 52 * (2 / 5) := by
+    show (-59 / 10 : ℚ) + 1 / 2 ^ 52 * |(-59 / 10 : ℚ) - -63 / 10| = _
+    norm_num [abs_of_pos]
+  have := h (by rw [e]; norm_num) c08Box 6 ⟨-15 / 1000, 0⟩ ⟨-15 / 1000, 0⟩ (-1)
+    (by rw [e]; norm_num) (by rw [e]; norm_num) (by rw [e]; norm_num) (by rw [e]; norm_num) (by rw [e]; norm_num) rfl
+    (by rw [e, hl]; norm_num) (by rw [e, hh]; norm_num) (by rw [e, hl]; norm_num) (by rw [e, hh]; norm_num)
+  rw [bbox_old_rule_witness.1, bbox_old_rule_witness.2.1] at this
+  exact absurd this (by decide)
+
+/-- **C08** (candidate finding) the ridge kernel is NOT invariant under a common longitude offset when the ridge is merely drawn
+within `[−2π, 2π]` (`π := 3`, constant `sin`/`cos`, which satisfy all the laws): ridge `(5,0)–(6,0)` with spreading velocities `1, 2`,
+query `(r, lon, lat) = (1, 1/2, 0)` gives the velocity of the WEST end (the description `1/2 + 2π = 6.5`, half a unit east of the ridge,
+is never tried: for `lon ≥ 0` the code tries `lon` and `lon − 2π`); offset by `d = −5` (ridge `(0,0)–(1,0)`, canonical query longitude
+`1/2 − 5 + 2π = 3/2`) it gives the velocity of the EAST end; the distance is measured to the same end.  Replay in degrees: ridge
+`[350,0],[360,0]`, query longitude `5`: foot point `350` (`15°` away; the ridge end `360 ≡ 0` is `5°` away); everything offset by `−350`
+(ridge `[0,0],[10,0]`, query longitude `15`): foot point `10`, `5°` away. -/
+theorem C08_ridge_lon_offset_inrange_full_false : ¬ C08_ridge_lon_offset_inrange_full c08Flat := by
+  intro h
+  have e : c08Flat.pi = 3 := rfl
+  have := h (by rw [e]; norm_num) c08Flat_periodLaws c08Flat_angleAddLaws (-5) ⟨1, 1 / 2, 0⟩ (3 / 2) 1 [[⟨5, 0⟩, ⟨6, 0⟩]] [[1, 2]] [[0]] []
+    (by rw [e]; norm_num) (by rw [e]; norm_num) (by rw [e]; norm_num) (by rw [e]; norm_num) (by rw [e]; norm_num)
+    (by
+      intro ridge hr v hv
+      simp only [List.mem_cons, List.not_mem_nil, or_false] at hr
+      subst hr
+      simp only [List.mem_cons, List.not_mem_nil, or_false] at hv
+      rcases hv with rfl | rfl <;> rw [e] <;> norm_num)
+  have e1 : ([[⟨5, 0⟩, ⟨6, 0⟩]] : List (List (P2 ℚ))).map (List.map (P2.shift ⟨-5, 0⟩)) = [[⟨0, 0⟩, ⟨1, 0⟩]] := by
+    simp only [List.map_cons, List.map_nil, P2.shift]; norm_num
+  have e2 : (⟨1, 1 / 2, 0⟩ : P3 ℚ).withLon (3 / 2) = ⟨1, 3 / 2, 0⟩ := rfl
+  obtain ⟨⟨r, hr, hv⟩, ⟨r', hr', hv'⟩⟩ := ridge_inrange_witness
+  rw [e1, e2, hr, hr'] at this
+  have hs : r'.spreading = r.spreading := by
+    have := congrArg (fun x => match x with | Except.ok y => y.spreading | Except.error _ => 0) this
+    simpa [Except.map, RidgeParams.eraseSub] using this
+  rw [hs, hv] at hv'
+  exact absurd hv' (by norm_num)
+
+/-- **C08** (candidate finding) the subducting velocity returned by the ridge kernel is NOT invariant under a common longitude offset
+even when every longitude is reached (`RidgeReach`): utilities.cc:1432 gives the far end of a segment `spreading_velocity_point1` when
+the copy `other_check_point` is used and `subducting_velocity_point1` when `check_point` is used.  Ridge `(1,0)–(2,0)`, spreading
+velocities `1, 2`, one subducting velocity `5`, query longitude `5/2`: `5`; offset by `d = 2` (ridge `(3,0)–(4,0)`, canonical query
+longitude `5/2 + 2 − 2π = −3/2`, used copy `−3/2 + 2π = 9/2`): `2`. -/
+theorem C08_ridge_lon_offset_full_false : ¬ C08_ridge_lon_offset_full c08Flat := by
+  intro h
+  have e : c08Flat.pi = 3 := rfl
+  have := h (by rw [e]; norm_num) c08Flat_periodLaws c08Flat_angleAddLaws 2 ⟨1, 5 / 2, 0⟩ (-3 / 2) (-1) [[⟨1, 0⟩, ⟨2, 0⟩]] [[1, 2]] [[5]] []
+    (by rw [e]; norm_num) (by rw [e]; norm_num) (by rw [e]; norm_num) (by rw [e]; norm_num) (by rw [e]; norm_num)
+    ridge_subducting_witness_reach
+  have e1 : ([[⟨1, 0⟩, ⟨2, 0⟩]] : List (List (P2 ℚ))).map (List.map (P2.shift ⟨2, 0⟩)) = [[⟨3, 0⟩, ⟨4, 0⟩]] := by
+    simp only [List.map_cons, List.map_nil, P2.shift]; norm_num
+  have e2 : (⟨1, 5 / 2, 0⟩ : P3 ℚ).withLon (-3 / 2) = ⟨1, -3 / 2, 0⟩ := rfl
+  obtain ⟨⟨r, hr, hv⟩, ⟨r', hr', hv'⟩⟩ := ridge_subducting_witness
+  rw [e1, e2, hr, hr'] at this
+  have hs : r' = r := by simpa using this
+  rw [hs, hv] at hv'
+  exact absurd hv' (by norm_num)
 
 /-! ### the hypotheses are satisfiable -/
 section examples
@@ -490,6 +720,112 @@ example : ∀ e ∈ polygonEdges c08Square, e.1 ≠ e.2 := (c08_lon_offset_examp
 
 /-- `C08_polygonContains_lon_offset`, `C08_bbox_lon_offset`: longitude `3/2` offset by `1/2` keeps the sign -/
 example : ((3 / 2 : ℚ) + 1 / 2 < 0 ↔ (3 / 2 : ℚ) < 0) := by norm_num
+
+/-- `C08_bbox_tries_all_aliases`, `C08_bbox_lon_offset_general`: the box with longitudes `[−2π − 0.3, −2π + 0.1]` (`π := 3`), offset
+`d = 2π`, canonical query longitude `−0.015` before and after (`j = −1`): the enlarged bounds of both boxes lie in `(−3π, 3π]` -/
+example :
+    (0 : ℚ) < c08Transc.pi ∧ (-c08Transc.pi < (-15 / 1000 : ℚ) ∧ (-15 / 1000 : ℚ) ≤ c08Transc.pi) ∧
+    ((-15 / 1000 : ℚ) = -15 / 1000 + 6 + 2 * c08Transc.pi * ((-1 : ℤ) : ℚ)) ∧
+    (-(3 * c08Transc.pi) < c08Box.loX c08Transc ∧ c08Box.hiX c08Transc ≤ 3 * c08Transc.pi) ∧
+    (-(3 * c08Transc.pi) < c08Box.loX c08Transc + 6 ∧ c08Box.hiX c08Transc + 6 ≤ 3 * c08Transc.pi) := by
+  have e : c08Transc.pi = 3 := rfl
+  have hl : c08Box.loX c08Transc = -63 / 10 - 1 / 2 ^ 52 * (2 / 5) := by
+    show (-63 / 10 : ℚ) - 1 / 2 ^ 52 * |(-59 / 10 : ℚ) - -63 / 10| = _
+    norm_num [abs_of_pos]
+  have hh : c08Box.hiX c08Transc = -59 / 10 + 1 / 2 ^ 52 * (2 / 5) := by
+    show (-59 / 10 : ℚ) + 1 / 2 ^ 52 * |(-59 / 10 : ℚ) - -63 / 10| = _
+    norm_num [abs_of_pos]
+  rw [e, hl, hh]
+  norm_num
+
+/-- `C08_ridge_lon_offset`: `π := 3` with constant `sin`, `cos` satisfies the laws (so do the real functions: `c08Real_periodLaws`,
+`c08Real_angleAddLaws`); the ridge `(1,0)–(2,0)`, query longitude `5/2`, offset `d = 2`, re-normalised longitude `−3/2` (`j = −1`):
+every segment mid longitude is reached in both frames (no transform fault) -/
+example :
+    (0 : ℚ) < c08Flat.pi ∧ PeriodLaws c08Flat ∧ AngleAddLaws c08Flat ∧
+    ((-3 / 2 : ℚ) = (⟨1, 5 / 2, 0⟩ : P3 ℚ).y + 2 + 2 * c08Flat.pi * ((-1 : ℤ) : ℚ)) ∧
+    RidgeReach c08Flat ⟨5 / 2, 0⟩ ⟨-3 / 2, 0⟩ 2 [[⟨1, 0⟩, ⟨2, 0⟩]] := by
+  refine ⟨?_, c08Flat_periodLaws, c08Flat_angleAddLaws, ?_, ridge_subducting_witness_reach⟩
+  · show (0 : ℚ) < 3; norm_num
+  · show (-3 / 2 : ℚ) = 5 / 2 + 2 + 2 * 3 * ((-1 : ℤ) : ℚ); norm_num
+
+/-- `C08_ridge_lon_offset_same_sign`: longitude `5/2` offset by `1/4` keeps the sign -/
+example : ((5 / 2 : ℚ) + 1 / 4 < 0 ↔ (5 / 2 : ℚ) < 0) := by norm_num
+
+/-- `C08_ridge_reach_of_range`: `π := 3`, query longitude `−1`, feature longitude `4 ∈ (−π, 2π]`; no description `−1 + 6k` is `3` away
+from `4` -/
+example : (-c08Transc.pi < (⟨-1, 0⟩ : P2 ℚ).x ∧ (⟨-1, 0⟩ : P2 ℚ).x ≤ c08Transc.pi) ∧
+    ((⟨-1, 0⟩ : P2 ℚ).x < 0 ∧ -c08Transc.pi < (4 : ℚ) ∧ (4 : ℚ) ≤ 2 * c08Transc.pi) ∧
+    (∀ k : ℤ, |(⟨-1, 0⟩ : P2 ℚ).x + 2 * c08Transc.pi * k - 4| ≠ c08Transc.pi) := by
+  have e : c08Transc.pi = 3 := rfl
+  rw [e]
+  refine ⟨by norm_num, by norm_num, ?_⟩
+  intro k h
+  simp only at h
+  rcases (abs_eq (by norm_num : (0 : ℚ) ≤ 3)).mp h with h | h
+  · have : (6 * k : ℤ) = 8 := by
+      have : (6 : ℚ) * k = 8 := by linarith
+      exact_mod_cast this
+    omega
+  · have : (6 * k : ℤ) = 2 := by
+      have : (6 : ℚ) * k = 2 := by linarith
+      exact_mod_cast this
+    omega
+
+/-- a plume with one cross-section: centre `(1, 0)` at depth `100` -/
+def c08Plume : PlumeFeature ℚ :=
+  { (default : PlumeFeature ℚ) with coords := [⟨1, 0⟩], minDepth := 0, maxDepth := 200, depths := [100], semiMajor := [1], ecc := [0],
+                                    rot := [0] }
+
+/-- `C08_plume_covers_lon_offset`: `π := 3`, the plume `c08Plume`, offset `d = 4` (centre carried to longitude `5`, across the meridian
+`π`), query longitude `1/2`, re-normalised `1/2 + 4 − 2π = −3/2`: depths ascending, centres within `[−2π, 2π]` in both frames, and no
+description `1/2 + 6k` is `3` away from the centre longitude `1` -/
+example (depth : ℚ) :
+    (0 : ℚ) < c08Transc.pi ∧ (-c08Transc.pi < (1 / 2 : ℚ) ∧ (1 / 2 : ℚ) ≤ c08Transc.pi) ∧
+    (-c08Transc.pi < (-3 / 2 : ℚ) ∧ (-3 / 2 : ℚ) ≤ c08Transc.pi) ∧
+    ((-3 / 2 : ℚ) = 1 / 2 + 4 + 2 * c08Transc.pi * ((-1 : ℤ) : ℚ)) ∧
+    Ascending c08Plume.depths ∧
+    (∀ c ∈ c08Plume.coords, -(2 * c08Transc.pi) ≤ c.x ∧ c.x ≤ 2 * c08Transc.pi) ∧
+    (∀ c ∈ c08Plume.coords, -(2 * c08Transc.pi) ≤ c.x + 4 ∧ c.x + 4 ≤ 2 * c08Transc.pi) ∧
+    (∀ up d0 sel, @plumeSelect ℚ (fieldScalar c08Transc) c08Plume depth d0 up = .ok sel →
+      ∀ k : ℤ, |(1 / 2 : ℚ) + 2 * c08Transc.pi * k - sel.1.x| ≠ c08Transc.pi) := by
+  have e : c08Transc.pi = 3 := rfl
+  rw [e]
+  have hc : ∀ c ∈ c08Plume.coords, c = ⟨1, 0⟩ := by
+    intro c hc
+    simpa [c08Plume] using hc
+  refine ⟨by norm_num, by norm_num, by norm_num, by norm_num, ?_, ?_, ?_, ?_⟩
+  · intro i j a b hij ha hb
+    have hj : j = 0 := by
+      by_contra hne
+      have : c08Plume.depths[j]? = none := by apply List.getElem?_eq_none; simp [c08Plume]; omega
+      rw [this] at hb; cases hb
+    subst hj
+    have hi : i = 0 := by omega
+    subst hi
+    rw [ha] at hb; cases hb; exact le_rfl
+  · intro c h; rw [hc c h]; norm_num
+  · intro c h; rw [hc c h]; norm_num
+  · intro up d0 sel hs k h
+    have hS := (@plumeSelect_ok_iff ℚ (fieldScalar c08Transc) c08Plume depth d0 up sel).mp hs
+    have hx : sel.1.x = 1 := by
+      rcases hS with ⟨_, c, _, _, _, h0, _, _, _, rfl⟩ | ⟨_, _, c, _, _, _, h0, _, _, _, rfl⟩ |
+        ⟨h0, _, _, _, _, ch, _, _, _, _, _, _, _, _, _, h1, _⟩
+      · rw [hc c (List.mem_of_getElem? h0)]
+      · rw [hc c (List.mem_of_getElem? h0)]
+      · exfalso
+        have : c08Plume.coords[up]? = none := by apply List.getElem?_eq_none; simp [c08Plume]; omega
+        rw [this] at h1; cases h1
+    rw [hx] at h
+    rcases (abs_eq (by norm_num : (0 : ℚ) ≤ 3)).mp h with h | h
+    · have : (12 * k : ℤ) = 7 := by
+        have : (12 : ℚ) * k = 7 := by linarith
+        exact_mod_cast this
+      omega
+    · have : (12 * k : ℤ) = -5 := by
+        have : (12 : ℚ) * k = -5 := by linarith
+        exact_mod_cast this
+      omega
 
 end examples
 
